@@ -790,6 +790,8 @@ def correspond(ctx, corr, model_ok):
     rng = ctx.rng
     corr.oracle_failures.extend(session_oracle())
     corr.count('one connection, several requests (gate per request; non-ASCII route names)', 40)
+    corr.oracle_failures.extend(variants_oracle())
+    corr.count('verifier handed over in 4 forms x 4 request types; handlers raising 6 exception types x 3 request types', 50)
     runner = Runner()
     progs = fixed_programs()
     sprog, snames = styles_program()
@@ -900,7 +902,7 @@ def _run_case(case):
 
 
 def search(ctx, budget_s):
-    so = session_oracle()
+    so = session_oracle() + variants_oracle()
     if so:
         return so[:1]
     t0 = time.time()
@@ -956,6 +958,8 @@ def shrink(fc):
 def replay(obj):
     if obj['case'].get('session'):
         return bool(session_oracle())
+    if obj['case'].get('variants'):
+        return bool(variants_oracle())
     case = _fix(obj['case']['case'])
     o, obs = _run_case(case)
     if o:
@@ -1043,5 +1047,131 @@ def session_oracle():
                 if d != [(tag, nm)]:
                     out.append({'what': 'session: request for route %r reached %r' % (nm, d), 'session': True})
     finally:
+        loop.close()
+    return out
+
+
+def variants_oracle():
+    """(a) the authentication gate for every way a verifier can be handed over (coroutine function, object with an async
+    __call__, functools.partial, a plain function returning an awaitable); (b) a registered handler that raises — whatever it
+    raises — is the request's own failure: it ran once, and the unknown-route handler of that type did not run for it"""
+    import asyncio as _a
+    import functools
+    from rsocket.routing.request_router import RequestRouter
+    from rsocket.routing.routing_request_handler import RoutingRequestHandler
+    from rsocket.extensions.helpers import composite, route, authenticate_simple
+    from rsocket.payload import Payload
+    from rsocket.helpers import create_response
+    from rsocket.streams.empty_stream import EmptyStream
+    out = []
+    loop = _a.new_event_loop()
+    logging.disable(logging.CRITICAL)        # every rejected request is logged with a traceback by the library
+    try:
+        ran = []
+
+        async def verify(route_name, authentication, *_):
+            if bytes(authentication.username) != b'root':
+                raise PermissionError('rejected')
+
+        class CallableVerifier:
+            async def __call__(self, route_name, authentication):
+                await verify(route_name, authentication)
+
+        def returns_awaitable(route_name, authentication):
+            return verify(route_name, authentication)
+        verifiers = {'coroutine function': verify, 'object with async __call__': CallableVerifier(),
+                     'functools.partial': functools.partial(verify), 'function returning an awaitable': returns_awaitable}
+        EXC = {'KeyError': KeyError('missing'), 'LookupError': LookupError('x'), 'IndexError': IndexError(3),
+               'ValueError': ValueError('v'), 'AttributeError': AttributeError('a'), 'RuntimeError': RuntimeError('r')}
+
+        def mk_router():
+            router = RequestRouter()
+
+            @router.response('ok')
+            async def rr():
+                ran.append(('response', 'ok'))
+                return create_response(b'fine')
+
+            @router.fire_and_forget('ok')
+            async def fnf():
+                ran.append(('fnf', 'ok'))
+
+            @router.stream('ok')
+            async def st():
+                ran.append(('stream', 'ok'))
+                return EmptyStream()
+
+            @router.metadata_push('ok')
+            async def push():
+                ran.append(('push', 'ok'))
+            for en, ex in EXC.items():
+                def reg(en=en, ex=ex):
+                    @router.response('raise.' + en)
+                    async def rr2():
+                        ran.append(('response', 'raise.' + en))
+                        raise ex
+
+                    @router.fire_and_forget('raise.' + en)
+                    async def fnf2():
+                        ran.append(('fnf', 'raise.' + en))
+                        raise ex
+
+                    @router.stream('raise.' + en)
+                    async def st2():
+                        ran.append(('stream', 'raise.' + en))
+                        raise ex
+                reg()
+
+            @router.response_unknown()
+            async def u1():
+                ran.append(('response', 'UNKNOWN'))
+                return create_response(b'catch-all')
+
+            @router.fire_and_forget_unknown()
+            async def u2():
+                ran.append(('fnf', 'UNKNOWN'))
+
+            @router.stream_unknown()
+            async def u3():
+                ran.append(('stream', 'UNKNOWN'))
+                return EmptyStream()
+            return router
+
+        def call(handler, meth, name, user):
+            md = bytes(composite(route(name), authenticate_simple(user, 'pw')))
+            before = len(ran)
+            res = None
+            try:
+                res = loop.run_until_complete(getattr(handler, meth)(Payload(b'data', md)))
+                if isinstance(res, _a.Future):
+                    try:
+                        res = ('result', loop.run_until_complete(_a.wait_for(_a.shield(res), 0.01)))
+                    except Exception as e:
+                        res = ('error', type(e).__name__)
+            except Exception as e:
+                res = ('raised', type(e).__name__)
+            return ran[before:], res
+        meths = {'request_response': 'response', 'request_fire_and_forget': 'fnf', 'request_stream': 'stream',
+                 'on_metadata_push': 'push'}
+        for vname, v in verifiers.items():
+            handler = RoutingRequestHandler(mk_router(), authentication_verifier=v)
+            for meth, tag in meths.items():
+                a, _ = call(handler, meth, 'ok', 'mallory')
+                if a:
+                    out.append({'what': 'verifier given as %s: handler %r ran for a request it rejects' % (vname, a), 'variants': True})
+                b, _ = call(handler, meth, 'ok', 'root')
+                if b != [(tag, 'ok')]:
+                    out.append({'what': 'verifier given as %s: accepted request dispatched to %r' % (vname, b), 'variants': True})
+        handler = RoutingRequestHandler(mk_router())
+        for en in EXC:
+            for meth, tag in list(meths.items())[:3]:
+                a, res = call(handler, meth, 'raise.' + en, 'root')
+                if a != [(tag, 'raise.' + en)]:
+                    out.append({'what': 'a handler raising %s: handlers that ran for that one request: %r' % (en, a), 'variants': True})
+                if meth == 'request_response' and (not isinstance(res, tuple) or res[0] == 'result'):
+                    out.append({'what': 'a request-response handler raising %s was answered with %r instead of an error' % (en, res),
+                                'variants': True})
+    finally:
+        logging.disable(logging.NOTSET)
         loop.close()
     return out
